@@ -165,7 +165,7 @@ func (w *world) emitDriver() string {
 		var args []string
 		i := 0
 		for _, p := range f.params {
-			if p.kind == "ignored" || p.name == "_" || p.name == "" {
+			if p.kind == "ignored" || p.kind == "setter" || p.name == "_" || p.name == "" {
 				continue
 			}
 			fmt.Fprintf(&sb, "    let (a%d, ts) ← (dec ts : Option (%s × _))\n", i, p.leanTy)
@@ -223,7 +223,11 @@ func (w *world) emitMeta() string {
 		mf := metaFunc{Key: spec.key(), Lean: f.lean, UsesOra: f.usesOra, Failed: f.failed}
 		if f.failed == "" {
 			for _, p := range f.params {
-				mf.Params = append(mf.Params, metaParam{p.name, p.kind, p.leanTy})
+				kind := p.kind
+				if kind == "setter" {
+					kind = "ignored" // the plain definition drops func(error) parameters
+				}
+				mf.Params = append(mf.Params, metaParam{p.name, kind, p.leanTy})
 			}
 			for _, t := range f.resTypes {
 				mf.Ret = append(mf.Ret, w.leanType(t))
